@@ -137,6 +137,7 @@ def generate(ck):
                 "pressures": [wl.f(v) for v in p],
                 "contains_pb": with_pb,
                 "kw": bool(rng.random() < 0.3),
+                "long": (int(rng.choice([12001, 20000, 50001])) if (i % 29 == 13 and (fn.startswith("Fluid.gas") or fn in ("b_o_Standing", "Fluid.oil_FVF", "viscosity_water_McCain"))) else None),
                 "threads": [wl.oil_params(rng) for _ in range(3)] if i % 90 == 17 else None,
             }
         )
@@ -228,6 +229,28 @@ def run_case(ck, desc):
         pbs = [float(_oil.pressure_bubblepoint_Standing(*o)) for o in sets]
         P = np.array([0.0, 15.0, 0.5 * min(pbs), min(pbs), 0.5 * (min(pbs) + max(pbs)), max(pbs), 1.7 * max(pbs)])
         wl.judge_thread_groups(ck, desc, wl.correlation_thread_groups(sets, [(desc["water_T"], desc["salinity"])] + [(100.0 + 60 * k, 4.0 * k) for k in range(1, 4)], P, derivatives=True))
+    if desc.get("long"):
+        # a long history (tens of thousands of stamps) in one call: every element still equals the
+        # scalar call, judged on 120 elements drawn from it and on both ends
+        arr_call, sc_call = _callables(desc)
+        n_long = int(desc["long"])
+        rng_ = np.random.default_rng(n_long)
+        lo_, hi_ = (15.0, 12000.0) if desc["fn"].startswith("Fluid.gas") else (15.0, 9000.0)
+        base = rng_.uniform(lo_, hi_, n_long) if n_long % 2 else np.linspace(lo_, hi_, n_long)
+        arr = base.astype(desc["dtype"] if desc["dtype"] != "i4" else "i8")
+        out_l = np.asarray(arr_call(arr))
+        if out_l.shape != arr.shape or out_l.dtype.kind != "f":
+            ck.violation("same-shape", {"fn": desc["fn"], "n": n_long, "got": list(out_l.shape), "dtype": str(out_l.dtype)}, desc)
+            return True, None
+        idx = np.unique(np.concatenate([[0, 1, n_long - 2, n_long - 1], rng_.integers(0, n_long, 120)]))
+        eps_l = np.finfo(np.float32 if desc["dtype"] == "f4" else float).eps
+        for k in idx:
+            ref = float(sc_call(float(arr[k])))
+            if not ck.margin(f"elementwise (arrays of {n_long // 1000}k elements)", abs(float(out_l[k]) - ref), 256 * eps_l * abs(ref) + 1e-300):
+                ck.violation("elementwise", {"fn": desc["fn"], "n": n_long, "k": int(k), "p": float(arr[k]), "array": float(out_l[k]), "scalar": ref}, desc)
+                break
+        ck.count("long_arrays")
+        return True, {"n": n_long}
     view, buf = _array(desc)
     read_only = (len(desc["pressures"]) + int(desc["salinity"] * 10)) % 5 == 0
     if read_only:
